@@ -1,16 +1,14 @@
-SPECIFICATION GSpec
+SPECIFICATION Spec
 CONSTANTS
   Names = {"x"}
-  Vals = {"a"}
+  Vals = {"a", "b"}
   MaxDepth = 3
   PosVals <- PosNone
   Thens = {"none", "assign", "export", "ro"}
 INVARIANT TypeOK
 INVARIANT ProjectionFaithful
+INVARIANT AbstractionSound
 INVARIANT EnvExact
 INVARIANT ScopedOpsAreLocal
-INVARIANT PopRestores
-INVARIANT LocalsVanish
-INVARIANT AssignThenLookup
-PROPERTY GReadOnlyNeverChanges
-PROPERTY GReadOnlyVisible
+PROPERTY ReadOnlyNeverChanges
+PROPERTY ReadOnlyVisible
